@@ -13,6 +13,10 @@ func genSyncRingCode(repo string) (string, error) {
 	body, err := Translate(repo, TransSpec{
 		Dir:     "ringz",
 		Structs: []string{"item", "SyncRing"},
+		Expect: map[string][]ExpectField{
+			"item":     {{"value", "T"}, {"pos", "uint32"}},
+			"SyncRing": {{"values", "[]item[T]"}, {"cap", "uint32"}, {"mask", "uint32"}, {"head", "uint32"}, {"tail", "uint32"}},
+		},
 		Funcs: []string{"NewSync", "SyncRing.Init", "SyncRing.IsEmpty", "SyncRing.IsFull", "SyncRing.Len", "SyncRing.Cap",
 			"SyncRing.Push", "SyncRing.Pop", "SyncRing.PushWait", "SyncRing.PopWait"},
 		TimedTail: []string{"SyncRing.PushWait", "SyncRing.PopWait"},
